@@ -114,7 +114,7 @@ class State:
         self.mem = {}; self.own = set(); self.threads = [Thread()]; self.cur = 0; self.resumed = False
         self.mutexes = {}; self.pc = []; self.model = None; self.next_obj = 1; self.choices = []; self.obs = []
         self.cover = set(); self.nsym = 0; self.steps = 0; self.nalloc = 0; self.preempt = 0; self.faults = 0
-        self.exc = None; self.caught = []; self.tids = {}; self.abandoned = False; self.tags = set(); self.live_heap = 0; self.shared = {}; self.spawn_mark = 0
+        self.exc = None; self.caught = []; self.tids = {}; self.abandoned = False; self.tags = set(); self.live_heap = 0; self.shared = {}; self.spawn_mark = 0; self.ptrue = {}; self.pfalse = {}
     @property
     def stack(self): return self.threads[self.cur].stack
     def clone(self):
@@ -125,7 +125,7 @@ class State:
         s.choices = list(self.choices); s.obs = list(self.obs); s.cover = set(self.cover); s.nsym = self.nsym
         s.steps = self.steps; s.nalloc = self.nalloc; s.preempt = self.preempt; s.faults = self.faults
         s.exc = self.exc; s.caught = list(self.caught); s.tids = dict(self.tids); s.abandoned = self.abandoned
-        s.tags = set(self.tags); s.live_heap = self.live_heap; s.shared = dict(self.shared); s.spawn_mark = self.spawn_mark
+        s.tags = set(self.tags); s.live_heap = self.live_heap; s.shared = dict(self.shared); s.spawn_mark = self.spawn_mark; s.ptrue = dict(self.ptrue); s.pfalse = dict(self.pfalse)
         return s
 
 
@@ -207,6 +207,8 @@ class Engine:
                         if cal.k not in ('local', 'global'): ins.x['callee'] = kc(cal)
                     elif ins.op == 'load': ins.c = ('agg', ins.ty) if ins.ty.k in ('struct', 'named', 'arr', 'vec') else (self.lay.sa(ins.ty)[0], ins.ty.k == 'ptr')
                     elif ins.op == 'store': ins.c = ('agg', ins.ops[0].t) if ins.ops[0].t.k in ('struct', 'named', 'arr', 'vec') else self.lay.sa(ins.ops[0].t)[0]
+                    elif ins.op == 'getelementptr':
+                        ins.c = self.gep_plan(ins.x, ins.ops[1:])
                     elif ins.op == 'switch':
                         d, cases = ins.x
                         ins.c = {(cv.a & ((1 << cv.t.a) - 1)): lb for cv, lb in cases}
@@ -250,6 +252,23 @@ class Engine:
                     for v, lb in blk[i].x: tab.setdefault(lb, []).append((blk[i].res, v))
                     i += 1
                 f.phis[bn] = (i, tab)
+
+    def gep_plan(self, bt, idx):
+        """(constant byte offset, [(stride, operand), ...]) for a getelementptr"""
+        off = 0; dyn = []; cur = bt
+        def add(ix, stride):
+            nonlocal off
+            if ix.k == 'kconst' and type(ix.a) is int: off += sx(ix.a, ix.t.a if ix.t is not None and ix.t.k == 'int' else 64) * stride
+            else: dyn.append((stride, ix))
+        add(idx[0], self.lay.sa(bt)[0])
+        for ix in idx[1:]:
+            r = cur
+            if r.k == 'named': r = self.m.types[r.a]
+            if r.k == 'struct':
+                o, ft = self.lay.field_off(r, ix.a); off += o; cur = ft
+            else:
+                add(ix, self.lay.sa(r.b)[0]); cur = r.b
+        return (off, dyn)
 
     # ------------------------------------------------------------------ constants
     def store_const(self, o, off, ty, v):
@@ -477,6 +496,11 @@ class Engine:
 
     def add_pc(self, st, c, model=None):
         st.pc.append(c)
+        # syntactic facts: the asserted constraint (by AST id) is true; if it is a negation, its argument is false
+        # (the dict values keep the ASTs alive: z3 reuses the ids of collected expressions)
+        st.ptrue[c.get_id()] = c
+        if z3.is_not(c):
+            a0 = c.arg(0); st.pfalse[a0.get_id()] = a0
         if model is not None: st.model = model
         elif st.model is not None:
             try:
@@ -490,6 +514,9 @@ class Engine:
     def branch(self, st, work, c):
         """fork on symbolic i1/bool; returns the outcome for the current state"""
         c = self.as_bool(c)
+        cid = c.get_id()
+        if cid in st.ptrue: return 1
+        if cid in st.pfalse: return 0
         sc = z3.simplify(c)
         if z3.is_true(sc): return 1
         if z3.is_false(sc): return 0
@@ -497,8 +524,10 @@ class Engine:
         if t and f:
             o = st.clone(); self.add_pc(o, z3.Not(c), mf); o.choices.append(('br', 0)); work.append(o); self.forks += 1
             self.add_pc(st, c, mt); st.choices.append(('br', 1)); return 1
-        if t: return 1
-        if f: return 0
+        if t:
+            st.ptrue[cid] = c; return 1      # implied by the path condition: remember it (facts stay valid as pc only grows)
+        if f:
+            st.pfalse[cid] = c; return 0
         raise PathEnd()
 
     def concretize(self, st, work, v, bits):
@@ -680,18 +709,24 @@ class Engine:
         fr.ip += 1
 
     def i_gep(self, st, work, fr, ins):
-        base = self.val(fr, ins.ops[0]); idx = []
-        for o in ins.ops[1:]:
-            iv = self.val(fr, o)
-            if is_sym(iv): iv = self.concretize(st, work, iv, o.t.a)
-            idx.append(iv)
-        if type(base) is Bad:
-            fr.loc[ins.res] = base; fr.ip += 1; return
+        v = ins.ops[0]; base = fr.loc[v.a] if v.k == 'local' else v.a
         if type(base) is not tuple:
+            if type(base) is Bad:
+                fr.loc[ins.res] = base; fr.ip += 1; return
             if is_sym(base): raise Violation('address computation on symbolic non-pointer data (type confusion)', 'memory')
             if base == 0: base = NULL
             else: raise Violation('address computation on non-pointer %r' % (base,), 'memory')
-        fr.loc[ins.res] = self.gep_calc(ins.x, base, idx); fr.ip += 1
+        off, dyn = ins.c
+        off += base[1]
+        for stride, o in dyn:
+            iv = fr.loc[o.a] if o.k == 'local' else o.a
+            if type(iv) is not int:
+                if is_sym(iv): iv = self.concretize(st, work, iv, o.t.a)
+                elif type(iv) is Bad:
+                    fr.loc[ins.res] = iv; fr.ip += 1; return
+                else: raise Inconclusive('pointer used as an index')
+            off += sx(iv, o.t.a) * stride
+        fr.loc[ins.res] = (base[0], off); fr.ip += 1
 
     def i_copy(self, st, work, fr, ins):
         fr.loc[ins.res] = self.val(fr, ins.ops[0]); fr.ip += 1
